@@ -145,6 +145,12 @@ EXPRS += [
     ("expr", "src/collections/string.rs", "insert_bytes", ("arg", "copy", 2, 2), "string_insert_write_len"),
     ("expr", "src/collections/string.rs", "insert_bytes", ("arg", "set_len", 1, 0), "string_insert_new_len"),
     ("expr", "src/collections/string.rs", "pop", ("let", "newlen", 1), "string_pop_new_len", ("ch",)),
+    # String::retain: the guard's destructor, the "something was deleted" test and the move of a kept character
+    ("expr", "src/collections/string.rs", "retain", ("let", "new_len", 1), "string_retain_guard_len"),
+    ("expr", "src/collections/string.rs", "retain", ("if", 2), "string_retain_must_move", ("guard", "ch")),
+    ("expr", "src/collections/string.rs", "retain", ("arg", "copy", 1, 0), "string_retain_copy_src", ("guard", "ch")),
+    ("expr", "src/collections/string.rs", "retain", ("arg", "copy", 1, 1), "string_retain_copy_dst", ("guard", "ch")),
+    ("expr", "src/collections/string.rs", "retain", ("arg", "copy", 1, 2), "string_retain_copy_len", ("guard", "ch")),
     ("expr", "src/collections/string.rs", "truncate", ("if", 1), "string_truncate_in_range"),
 ]
 # statements around those expressions that have no value to translate: their text, whitespace-free,
@@ -209,6 +215,12 @@ FRAMES = [
      "assert!(self.is_char_boundary(idx));unsafe{self.insert_bytes(idx,string.as_bytes());}"),
     ("src/collections/string.rs", "split_off", "string_split_off_checked",
      "assert!(self.is_char_boundary(at));letother=self.vec.split_off(at);unsafe{String::from_utf8_unchecked(other)}"),
+    ("src/collections/string.rs", "retain", "string_retain_guard_sets_len",
+     "fndrop(&mutself){letnew_len=self.idx-self.del_bytes;"),
+    ("src/collections/string.rs", "retain", "string_retain_guard_set_len_call", "unsafe{self.s.vec.set_len(new_len)};}}"),
+    ("src/collections/string.rs", "retain", "string_retain_loop",
+     "letlen=self.len();letmutguard=SetLenOnDrop{s:self,idx:0,del_bytes:0,};whileguard.idx<len{letch=unsafe{guard.s.get_unchecked(guard.idx..len).chars().next().unwrap()};letch_len=ch.len_utf8();if!f(ch){guard.del_bytes+=ch_len;}elseifguard.del_bytes>0{unsafe{ptr::copy("),
+    ("src/collections/string.rs", "retain", "string_retain_advances_after_callback", ");}}guard.idx+=ch_len;}drop(guard);}"),
     ("src/collections/string.rs", "remove", "string_remove_decodes_at_idx",
      "letch=matchself[idx..].chars().next(){Some(ch)=>ch,None=>panic!("),
     ("src/collections/string.rs", "remove", "string_remove_moves",
@@ -538,7 +550,7 @@ class Parser:
                         raise Unsupported("turbofish")
                 if self.peek() == "(":
                     a = self.args()
-                    if len(a) == 0 and e in ('(EVar "self")', '(EMeth0 (EVar "self") "vec")') and m == "as_ptr":
+                    if len(a) == 0 and (e == '(EVar "self")' or e.endswith(' "vec")')) and m == "as_ptr":
                         # the buffer pointer of the collection itself (as_ptr on anything else is the identity
                         # on addresses): the same field as as_mut_ptr
                         e = "(EMeth0 %s %s)" % (e, q("as_mut_ptr"))
